@@ -33,7 +33,13 @@ use std::sync::Arc;
 use std::sync::atomic::{AtomicU64, Ordering};
 
 use serde_json::{Value, json};
+#[cfg(not(feature = "verif-hooks"))]
 use tokio::sync::{Mutex, mpsc};
+#[cfg(feature = "verif-hooks")]
+use tokio::sync::mpsc;
+
+#[cfg(feature = "verif-hooks")]
+use crate::verif_hooks::sync::Mutex;
 
 /// One registered subscription. The sender is the *connection's* push
 /// channel — all subscriptions multiplex over a single mpsc to the
@@ -67,6 +73,8 @@ impl SubscriptionHub {
     #[cfg(unix)]
     pub async fn subscribe(&self, topic: &str, push_tx: mpsc::Sender<String>) -> String {
         let id = format!("sub-{}", self.next_id.fetch_add(1, Ordering::Relaxed));
+        #[cfg(feature = "verif-hooks")]
+        crate::verif_hooks::yield_point("subscribe:id_taken").await;
         self.entries.lock().await.push(Entry {
             id: id.clone(),
             topic: topic.to_string(),
@@ -93,6 +101,8 @@ impl SubscriptionHub {
         {
             let entries = self.entries.lock().await;
             for entry in entries.iter() {
+                #[cfg(feature = "verif-hooks")]
+                crate::verif_hooks::yield_point("publish:entry").await;
                 if entry.topic != topic {
                     continue;
                 }
@@ -119,6 +129,8 @@ impl SubscriptionHub {
                 }
             }
         }
+        #[cfg(feature = "verif-hooks")]
+        crate::verif_hooks::yield_point("publish:unlocked").await;
         if !to_prune.is_empty() {
             let mut entries = self.entries.lock().await;
             entries.retain(|e| !to_prune.contains(&e.id));
